@@ -982,10 +982,14 @@ class Engine:
             if isinstance(f, FnV):
                 return self.do_call(st, fr, t, f.path, f.path, cargs, dest, target)
         # 2. models
-        m = self.models.get(rname) or self.models.get(name)
-        if m is None and c.get("trait") and c.get("method"):
-            m = self.models.get(strip_generics(c["trait"]) + "::" + c["method"])
-        if m is not None:
+        cands = [self.models.get(rname), self.models.get(name)]
+        if c.get("trait") and c.get("method"):
+            cands.append(self.models.get(strip_generics(c["trait"]) + "::" + c["method"]))
+        tried = []
+        for m in cands:
+            if m is None or any(m is x for x in tried):
+                continue
+            tried.append(m)
             res = m(self, st, fr, t, name, rname, args)
             if res is not NotImplemented:
                 return self.finish_call(st, fr, res, dest, target, t)
